@@ -55,6 +55,103 @@ pub fn c_decode_once(alist: &[u8], implementation: &[u8], llrs: &[f64], limit: u
     Some((ret, out.to_vec()))
 }
 
+/// one decode through a C handle built by the FILE constructor
+pub fn c_decode_once_file(path: &str, implementation: &[u8], llrs: &[f64], limit: u32, out_len: usize) -> Option<(i32, Vec<u8>)> {
+    let (cpath, ci, cp) = (cs(path.as_bytes()), cs(implementation), cs(b""));
+    let h = unsafe { ldpc_toolbox_decoder_ctor(cpath.as_ptr(), ci.as_ptr(), cp.as_ptr()) };
+    if h.is_null() {
+        return None;
+    }
+    let mut out = vec![0xAAu8; out_len].into_boxed_slice();
+    let l64: Box<[f64]> = llrs.to_vec().into_boxed_slice();
+    let ret = unsafe { ldpc_toolbox_decoder_decode_f64(h, out.as_mut_ptr(), out_len, l64.as_ptr(), l64.len(), limit) };
+    unsafe { ldpc_toolbox_decoder_dtor(h) };
+    Some((ret, out.to_vec()))
+}
+
+/// history of the file constructors: the SAME path holds different codes over time (same and different
+/// sizes); every construction must use what the file contains now
+fn file_history_case(l: &mut Local, rng: &mut Rng, names: &[String]) {
+    let path = format!("/verif/target/legs/c19-history-{}.alist", std::process::id());
+    let _ = std::fs::create_dir_all("/verif/target/legs");
+    let n0 = rng.range(6, 12);
+    for step in 0..4 {
+        // two matrices of the same shape in a row, then another shape
+        let m = loop {
+            let m = genm::decoder_matrix(rng, 5, 12);
+            if step == 0 || step == 2 || m.cols > 0 {
+                break m;
+            }
+        };
+        let m = if step % 2 == 1 {
+            // same shape as before is likely to be misread silently: regenerate until the shape matches n0 or give up
+            let mut mm = m;
+            for _ in 0..50 {
+                if mm.cols == n0 {
+                    break;
+                }
+                mm = genm::decoder_matrix(rng, 5, 12);
+            }
+            mm
+        } else {
+            m
+        };
+        let h = m.to_sparse();
+        std::fs::write(&path, h.alist()).expect("write alist");
+        let name = rng.pick(names).clone();
+        mark(&format!("file history step {} {} {}x{}", step, name, m.rows, m.cols));
+        let cw = genm::random_codeword(rng, &m);
+        let im = DecoderImplementation::from_str(&name).expect("name");
+        for _ in 0..3 {
+            let llrs = genm::llr_vector(rng, m.cols, 7, Some(&cw));
+            let limit = *rng.pick(&[1u32, 2, 5]);
+            let want = im.build_decoder(h.clone()).decode(&llrs, limit as usize);
+            let (wret, wword) = match &want {
+                Ok(o) => (o.iterations as i32, o.codeword.clone()),
+                Err(o) => (-1, o.codeword.clone()),
+            };
+            l.eval();
+            match c_decode_once_file(&path, name.as_bytes(), &llrs, limit, m.cols) {
+                None => {
+                    l.violation("file constructor returns null for a valid alist file", m.json().set("implementation", name.clone()).set("step", step));
+                    break;
+                }
+                Some((ret, out)) => {
+                    if ret != wret || out != wword {
+                        l.violation(
+                            "a decoder built by the file constructor does not use the matrix the file contains now (call history on one path)",
+                            m.json().set("implementation", name.clone()).set("step", step).set("c_return", ret).set("c_output", out).set("rust", format!("{:?}", want)),
+                        );
+                        break;
+                    }
+                    let mut d = Dig::new();
+                    d.s("file-history").entries(&m.e).fs(&llrs);
+                    l.nt(d.get());
+                }
+            }
+        }
+        // encoder file constructor on the same path (when the tail happens to be invertible)
+        if tail_invertible(m.rows, m.cols, &m.e) {
+            let (cpath, cp) = (cs(path.as_bytes()), cs(b""));
+            let he = unsafe { ldpc_toolbox_encoder_ctor(cpath.as_ptr(), cp.as_ptr()) };
+            if !he.is_null() {
+                let k = m.cols - m.rows;
+                let msg: Vec<u8> = (0..k).map(|_| rng.coin() as u8).collect();
+                let want = from_gf2(&Encoder::from_h(&h).expect("encoder").encode(&to_gf2(&msg)));
+                let mut out = vec![0xAAu8; m.cols].into_boxed_slice();
+                let inp: Box<[u8]> = msg.clone().into_boxed_slice();
+                l.eval();
+                unsafe { ldpc_toolbox_encoder_encode(he, out.as_mut_ptr(), out.len(), inp.as_ptr(), inp.len()) };
+                if out[..] != want[..] {
+                    l.violation("an encoder built by the file constructor does not use the matrix the file contains now (call history on one path)", m.json().set("step", step));
+                }
+                unsafe { ldpc_toolbox_encoder_dtor(he) };
+            }
+        }
+    }
+    let _ = std::fs::remove_file(&path);
+}
+
 fn cs(bytes: &[u8]) -> CString {
     // interior NULs cannot be passed through a C string: cut there (what C would see)
     let cut = bytes.iter().position(|&b| b == 0).unwrap_or(bytes.len());
@@ -440,6 +537,11 @@ fn capi_leg(run: &mut Run) {
     let ne = if miri { 2 } else { run.tier.n(20_000, 500_000) };
     run.sub_seq("encoder-differential", ne, |l, idx, rng| encoder_case(l, rng, idx % 5 == 4));
     run.sub_seq("constructor-failures", 1, |l, _i, rng| ctor_failures(l, rng));
+    if !cfg!(miri) {
+        let names3 = all_names();
+        let nh = run.tier.n(40, 1000);
+        run.sub_seq("file-constructor-history", nh, move |l, _i, rng| file_history_case(l, rng, &names3));
+    }
 }
 
 /// write the case file and the expected output for the C driver (ASan / valgrind legs)
